@@ -9,6 +9,8 @@ import numpy as np
 import vivarium.core.registry as registry
 from vivarium.library.units import units, Quantity
 
+from vivarium.core.composer import Composer
+
 from vmc import framework as fw
 from vmc import probes, worlds
 
@@ -100,6 +102,10 @@ def cases(ctx):
     for n in range(7):
         add(f'binomial:{n}', 'binomial', n,
             lambda v, o: (o, v - o), outcomes=tuple(range(n + 1)))
+    # a mother value with a fractional part: the total is still conserved
+    for fv in (7.5, 2.5):
+        add(f'binomial:{fv}', 'binomial', fv, lambda v, o: (o, v - o),
+            outcomes=tuple(range(int(fv) + 1)))
     add('zero', 'zero', 7, lambda v, o: (0, 0))
     for i, val in enumerate([math.inf, -math.inf, math.nan, 'arr', 'q',
                              0.0]):
@@ -500,10 +506,160 @@ def independence_update(case, got0):
             got0, bool):
         return {'_updater': 'accumulate', '_value': 1}
     if isinstance(got0, np.ndarray):
-        return {'_updater': 'set', '_value': np.array([9.0, 9.0])}
+        # an updater that changes the array it is given
+        return {'_updater': _add_in_place, '_value': np.array([9.0, 9.0])}
     if isinstance(got0, list):
-        return {'_updater': 'accumulate', '_value': [3]}
+        return {'_updater': _extend_in_place, '_value': [3]}
     return None
+
+
+def _add_in_place(current, update):
+    current += update
+    return current
+
+
+def _extend_in_place(current, update):
+    current.extend(update)
+    return current
+
+
+class CellComposer(Composer):
+    """Builds one cell process; the divider of its variable comes ONLY
+    from the composer's _schema override."""
+    defaults = {}
+
+    def generate_processes(self, config):
+        return {'cell': probes.Probe({
+            'pid': 'cell', 'ts': 1, 'log_states': False,
+            'schema': {'inner': {'v': {'_default': 0, '_updater': 'set',
+                                       '_emit': True}}},
+            'update': {}})}
+
+    def generate_topology(self, config):
+        return {'cell': {'inner': ('store',)}}
+
+
+_COMPOSER = []
+
+
+def _compose_daughters(tpl, env):
+    ds = []
+    for key in tpl['keys']:
+        comp = _COMPOSER[0].generate({'agent': key})
+        ds.append({'key': key, 'processes': comp['processes'],
+                   'topology': comp['topology']})
+    return {'agents': {'_divide': {'mother': tpl['mother'],
+                                   'daughters': ds}}}
+
+
+probes.TEMPLATE_HOOKS['c11compose'] = _compose_daughters
+
+
+def composer_case(job, acc):
+    """Daughters whose processes come from ONE composer that carries the
+    divider as a _schema override (the MetaDivision pattern): the override
+    applies to every composite the composer generates, the first (built
+    without a config) and all later ones."""
+    _, first_configless = job
+    label = {'case': 'composer-daughters', 'job': list(job)}
+    acc.case(key=job, outcome='composer')
+    del _COMPOSER[:]
+    _COMPOSER.append(CellComposer({'_schema': {'cell': {'inner': {'v': {
+        '_divider': 'split'}}}}}))
+    first = _COMPOSER[0].generate(path=('agents', 'm')) \
+        if first_configless else _COMPOSER[0].generate(
+            {'agent': 'm'}, path=('agents', 'm'))
+    div = probes.ProbeStep({
+        'pid': 'div', 'log_states': False, 'schema': {'agents': {}},
+        'update': {'$n': {
+            1: {'$call': 'c11compose', 'mother': 'm',
+                'keys': ['m0', 'm1']},
+            2: {'$call': 'c11compose', 'mother': 'm0',
+                'keys': ['m00', 'm01']}}, '$else': {}}})
+    ticker = probes.Probe({'pid': 'ticker', 'ts': 1, 'log_states': False,
+                           'schema': {'tk': {'n': {'_default': 0}}},
+                           'update': {'tk': {'n': 1}}})
+    try:
+        eng = probes.MonitoredEngine(
+            processes=dict(first['processes'], ticker=ticker),
+            steps={'div': div}, flow={'div': []},
+            topology=dict(first['topology'], div={'agents': ('agents',)},
+                          ticker={'tk': ('tks',)}),
+            initial_state={'agents': {'m': {'store': {'v': 8}}}},
+            emitter={'type': 'null'}, display_info=False)
+        eng.update(2)
+        agents = probes.pure(eng.state.get_value())['agents']
+    except Exception as e:  # noqa
+        acc.violate(fw.violation(
+            'C11.crash', f'composer:{type(e).__name__}',
+            f'unexpected {e!r}', label))
+        return
+    got = {k: v['store']['v'] for k, v in agents.items()}
+    if got != {'m1': 4, 'm00': 2, 'm01': 2}:
+        acc.violate(fw.violation(
+            'C11.value', 'composer-declared-divider-not-applied',
+            f'split divider declared through the composer\'s _schema '
+            f'override, mother 8, two generations: {got}, expected '
+            f'm1=4, m00=2, m01=2', label))
+
+
+def leak_case(job, acc):
+    """An explicit initial state for ONE daughter that overrides (part of)
+    a value the divider hands to BOTH daughters as one object - a branch
+    with the set divider, a dictionary-valued leaf with the default
+    divider: the sister keeps the mother's value."""
+    _, kind, which, copy_procs = job
+    label = {'case': f'leak:{kind}', 'job': list(job)}
+    acc.case(key=job, outcome='leak')
+    if kind == 'branch-set':
+        schema = {'b': {'_divider': 'set',
+                        'x': {'_default': 0, '_emit': True},
+                        'y': {'_default': 0, '_emit': True}}}
+        state = {'b': {'x': 5, 'y': 6}}
+        override = {'b': {'x': 100}}
+        mothers, overridden = {'x': 5, 'y': 6}, {'x': 100, 'y': 6}
+    else:
+        schema = {'b': {'v': {'_default': {}, '_updater': 'set',
+                              '_emit': True}}}
+        state = {'b': {'v': {'k': {'j': 1}, 'l': 2}}}
+        override = {'b': {'v': {'k': {'j': 100}}}}
+        mothers = {'v': {'k': {'j': 1}, 'l': 2}}
+        overridden = {'v': {'k': {'j': 100}, 'l': 2}}
+    cell = {'cls': 'P', 'pid': 'cell', 'ts': 1, 'log_states': False,
+            'schema': schema, 'update': {}}
+    ds = []
+    for i in (0, 1):
+        d = {'key': f'm{i}'}
+        if not copy_procs:
+            d['processes'] = {'$probes': {'cell': copy.deepcopy(cell)}}
+            d['topology'] = {'cell': {'b': ('b',)}}
+        if i == which:
+            d['initial_state'] = copy.deepcopy(override)
+        ds.append(d)
+    div = {'cls': 'S', 'pid': 'div', 'log_states': False,
+           'schema': {'agents': {}},
+           'update': {'$n': {1: {'agents': {'_divide': {
+               'mother': 'm', 'daughters': ds}}}}, '$else': {}}}
+    spec = {'processes': {'agents': {'m': {'cell': cell}}},
+            'steps': {'div': div}, 'flow': {'div': []},
+            'topology': {'div': {'agents': ('agents',)},
+                         'agents': {'m': {'cell': {'b': ('b',)}}}},
+            'state': {'agents': {'m': state}},
+            'script': [('update', 1)]}
+    ex = worlds.execute(spec)
+    if ex.error:
+        acc.violate(fw.violation(
+            'C11.crash', f'leak:{type(ex.error[2]).__name__}',
+            f'unexpected {ex.error[2]!r}', label))
+        return
+    agents = probes.pure(ex.engine.state.get_value())['agents']
+    got = {k: v.get('b') for k, v in agents.items()}
+    want = {f'm{which}': overridden, f'm{1 - which}': mothers}
+    if got != want:
+        acc.violate(fw.violation(
+            'C11.override', 'explicit-initial-state-leaks-to-the-sister',
+            f'{kind}: daughter m{which} alone is given the initial state '
+            f'{override}: daughters hold {got}, expected {want}', label))
 
 
 def halves_divider(value, config=None, state=None):
@@ -702,6 +858,10 @@ def jobs(ctx):
 def run_job(job, acc):
     if job[0] == 'branch':
         branch_case(job, acc)
+    elif job[0] == 'composer':
+        composer_case(job, acc)
+    elif job[0] == 'leak':
+        leak_case(job, acc)
     elif job[0] == 'topo':
         topo_case(job, acc)
     else:
@@ -711,7 +871,11 @@ def run_job(job, acc):
 def run(ctx):
     js = jobs(ctx) + [('branch', n, cp, form) for n in range(5)
                       for cp in (False, True)
-                      for form in BRANCH_FORMS] + topo_jobs()
+                      for form in BRANCH_FORMS] + topo_jobs() + [
+        ('composer', True), ('composer', False)] + [
+        ('leak', kind, which, cp)
+        for kind in ('branch-set', 'dict-leaf') for which in (0, 1)
+        for cp in (False, True)]
     return ctx.map(run_job, js)
 
 
